@@ -247,8 +247,13 @@ class Built:
         if c['initraises']:
             body.append('        raise ValueError("constructor of %s refuses")'
                         % name)
+        ya = c.get('yattrs') or []
         for n in names:
-            body.append('        self.%s = %s' % (n, n))
+            body.append('        self.%s%s = %s' % ('_p_' if ya else '', n, n))
+        if ya:
+            body.append('    def _yatiml_attributes(self):')
+            body.append('        return OrderedDict([%s])' % ', '.join(
+                '(%r, self._p_%s)' % (n, n) for n in ya))
         src = 'class %s(%s):\n%s\n' % (
             name, ', '.join('_base%d' % i for i in range(len(bases)))
             or 'object', '\n'.join(body))
@@ -331,9 +336,10 @@ class Built:
                 if c['kind'] in ('strlike', 'userstring', 'ystring'):
                     return ['strlike', name, str(v)]
                 attrs = {}
+                pre = '_p_' if c.get('yattrs') else ''
                 for p in c['params']:
                     attrs[p['name']] = self.abstract(
-                        getattr(v, p['name'], '<missing>'))
+                        getattr(v, pre + p['name'], '<missing>'))
                 if c['extra']:
                     attrs['_yatiml_extra'] = self.abstract(
                         getattr(v, '_yatiml_extra', None))
@@ -401,11 +407,13 @@ class Built:
                 return False
             if c['kind'] != 'plain':
                 return True
+            pre = '_p_' if c.get('yattrs') else ''
             for p in c['params']:
-                if not self.conforms(getattr(v, p['name'], None), p['type']):
+                if not self.conforms(getattr(v, pre + p['name'], None),
+                                     p['type']):
                     # a default may itself be outside the annotation (None)
                     if not p['required'] and self.abstract(getattr(
-                            v, p['name'], None)) == list(p['default']):
+                            v, pre + p['name'], None)) == list(p['default']):
                         continue
                     return False
             if c['extra']:
